@@ -597,7 +597,14 @@ pub fn judge_success_session(
             }
         }
         let defrag: usize = out.files.iter().filter_map(|f| f.result.as_ref().ok()).map(|r| r.1.defrag_prevented_dedup_chunks).sum();
-        if reup_chunks > 0 {
+        // the in-memory chunk index is capped (CHUNK_INDEX_TABLE_MAX_SIZE): beyond the cap chunks are legitimately not
+        // found.  The clause is judged only while the history has stored less than half the configured cap.
+        let index_cap: usize = std::env::var("HF_XET_CHUNK_INDEX_TABLE_MAX_SIZE").ok().and_then(|s| s.parse().ok()).unwrap_or(64 * 1024 * 1024);
+        let within_cap = st.view.stored_chunks.len() * 2 <= index_cap;
+        if reup_chunks > 0 && !within_cap {
+            rep.count("C11", "reuploads_not_judged_history_near_index_cap", 1);
+        }
+        if reup_chunks > 0 && within_cap {
             if l.frag_prevention_off || defrag == 0 {
                 rep.violation(
                     "C11",
@@ -919,6 +926,8 @@ pub struct GenOpts {
     /// many files per session, always cleaned concurrently on 4..16 workers: the shared session state
     /// (shard manager flushes, aggregator merges, upload tasks) is hit from many tasks at once
     pub storm: bool,
+    /// most later sessions reach the shard cache through their own manager instance (as a new process would)
+    pub alias_bias: bool,
 }
 
 pub fn gen_history(rng: &mut Rng, l: &Limits, o: &GenOpts) -> Vec<SessionSpec> {
@@ -1036,7 +1045,7 @@ pub fn gen_history(rng: &mut Rng, l: &Limits, o: &GenOpts) -> Vec<SessionSpec> {
             salt,
             cache_idx,
             // "another process": a later session of the shared cache through its own manager instance
-            cache_alias: if !fresh && si > 0 && rng.chance(1, 4) { Some(si) } else { None },
+            cache_alias: if !fresh && si > 0 && rng.chance(if o.alias_bias { 3 } else { 1 }, 4) { Some(si) } else { None },
             shard_reply_exists: rng.chance(1, 5),
             global_keyed_seed: if fresh && rng.chance(2, 3) { Some(rng.next_u64()) } else { None },
         });
@@ -1075,7 +1084,9 @@ pub fn run(args: &Args, rep: &mut Report) {
         repeat_bias: args.has("repeat-bias"),
         defrag_focus: args.has("defrag-focus"),
         storm: args.has("storm"),
+        alias_bias: args.has("alias-bias"),
     };
+    let alias_sleep_ms = args.u64("alias-sleep-ms", 0);
     let cfg_id = format!("t{}|xb{}|xc{}|ib{}|fp{}", l.target, l.max_xorb_bytes, l.max_xorb_chunks, l.ingestion_block, l.frag_prevention_off as u8);
     let mut failed_sessions = 0u64;
     let mut total_sessions = 0u64;
@@ -1120,6 +1131,11 @@ pub fn run(args: &Args, rep: &mut Report) {
                 eprintln!("SPEC case {k} session {si}: {}", session_json(spec));
             }
             let _ = xvcommon::take_panic_log();
+            if alias_sleep_ms > 0 && spec.cache_alias.is_some() {
+                // a "new process" that starts later: with a short configured validity of cached shards, time has to pass
+                std::thread::sleep(std::time::Duration::from_millis(alias_sleep_ms));
+                rep.count("C11", "second_manager_sessions_started_after_a_pause", 1);
+            }
             let out = run_session(&d, spec, Plan::default(), ErrPolicy::AbandonSession);
             let session_panics = xvcommon::take_panic_log();
             let wit = |what: &str| {
@@ -1247,6 +1263,7 @@ pub fn run_faults(args: &Args, rep: &mut Report) {
         repeat_bias: false,
         defrag_focus: false,
         storm: false,
+        alias_bias: false,
     };
     let max_points = args.usize("max-points", 20);
     let cfg_id = format!("t{}|xb{}|xc{}", l.target, l.max_xorb_bytes, l.max_xorb_chunks);
